@@ -333,7 +333,31 @@ def check_writers(ctx, db):
     # PLACEMENT vs PLACEMENT_TRANSFORM choice and AA code
     w = db.fn('gdstk::Library::write_oas')
     t = norm(clone.canon(w.body, w))
-    ok = 'OasisRecord::PLACEMENT_TRANSFORM' in t and re.search(r'if \(\(\(v\d+->magnification == 1(?:\.0)?\) && is_multiple_of_pi_over_2\(v\d+->rotation, v\d+\)\)\)', t) is not None
+    # the test that chooses between the two records, evaluated (sa/minieval) for magnification 1 / 2 x rotation a multiple of 90 degrees or not
+    from .. import minieval as _M
+    sel = [i_ for i_ in w.walk() if i_.k == 'IfStmt' and i_.child('else') is not None and any(
+        {('PLACEMENT_TRANSFORM' in norm(a_.text())) for a_ in br.walk() if a_.k == 'DeclRefExpr' and a_.dk == 'enum' and a_.n in ('PLACEMENT', 'PLACEMENT_TRANSFORM')} == {pol}
+        for br, pol in ((i_.child('then'), False),)) and any(a_.k == 'DeclRefExpr' and a_.dk == 'enum' and a_.n == 'PLACEMENT_TRANSFORM' for a_ in i_.child('else').walk())]
+    ok = len(sel) == 1
+    if ok:
+        for mag in (1.0, 2.0):
+            for mult in (0, 1):
+                def _hook(callee, args, node, mult=mult):
+                    if (callee or '').endswith('is_multiple_of_pi_over_2'):
+                        return (mult,)
+                    return None
+                mi_ = _M.Mini(db, hook=_hook, budget=2000)
+                mi_.obj_store = True
+                env_ = {x_.n: _M.Obj(magnification=mag, rotation=0.5, x_reflection=0) for x_ in sel[0].child('cond').walk() if x_.k == 'DeclRefExpr' and x_.dk in ('local', 'param') and '*' in (x_.t or '')}
+                for x_ in sel[0].child('cond').walk():
+                    if x_.k == 'DeclRefExpr' and x_.dk in ('local', 'param') and x_.n not in env_:
+                        env_[x_.n] = 0
+                try:
+                    got_ = bool(mi_.ev(sel[0].child('cond'), env_))
+                except AnalysisBroken:
+                    got_ = None
+                if got_ != (mag == 1.0 and bool(mult)):
+                    ok = False
     ctx.check(ok, 'R-TABLE', 'write_oas/PLACEMENT-choice', w.loc(), 'the compact PLACEMENT (17) is used exactly for unit magnification and rotations that are multiples of 90 degrees')
     aa = [x for x in w.walk() if x.k == 'CompoundAssignOperator' and x.op == '|=' and norm(x.child('lhs').text()) == 'info' and '<< 1' in norm(x.child('rhs').text())]
     ok = len(aa) == 2 and all('(3 & ' in norm(x.child('rhs').text()) for x in aa)
